@@ -1332,6 +1332,11 @@ impl Zeroconf {
                 debug!("Unregistering service during shutdown: {}", &fullname);
 
                 for intf in self.my_intfs.values() {
+                    // A goodbye only where the service has been announced.
+                    if info.get_status(intf.index) != ServiceStatus::Announced {
+                        continue;
+                    }
+
                     if let Some(sock) = self.ipv4_sock.as_ref() {
                         self.unregister_service(info, intf, &sock.pktinfo);
                     }
@@ -3768,6 +3773,16 @@ impl Zeroconf {
                 let mut timers = Vec::new();
 
                 for (if_index, intf) in self.my_intfs.iter() {
+                    // The service no longer waits for the probes of its records.
+                    if let Some(dns_registry) = self.dns_registry_map.get_mut(if_index) {
+                        dns_registry.remove_waiting_service(info.get_fullname());
+                    }
+
+                    // A goodbye only where the service has been announced.
+                    if info.get_status(*if_index) != ServiceStatus::Announced {
+                        continue;
+                    }
+
                     if let Some(sock) = self.ipv4_sock.as_ref() {
                         let packet = self.unregister_service(&info, intf, &sock.pktinfo);
                         // repeat for one time just in case some peers miss the message
